@@ -111,10 +111,16 @@ package cbor
 //@   ensures @bits err == nil ==> highThreeBits < 8 && lowFiveBits < 32
 //@   ensures @addlen err == nil ==> len(additional) == addlen(lowFiveBits)
 
+// "null or undefined" is reported only for the simple values 22 and 23 (first byte
+// 0xf6 / 0xf7): every other head is either consumed as the expected type or an error
 //@ func cbor.Decoder.unwrap
 //@   params d allowedTypes
 //@   props C12 C10(sweep)
 //@   sweep bounds,panic,make,nilmem
+//@   callsites Errorf 2
+//@   callassert Errorf#1: @nullonly highThreeBits == 7 && (lowFiveBits == 22 || lowFiveBits == 23)
+//@   callassert Errorf#2: @notnull !(highThreeBits == 7 && (lowFiveBits == 22 || lowFiveBits == 23))
+//@   ensures @notnullok ? err == nil ==> !(highThreeBits == 7 && (lowFiveBits == 22 || lowFiveBits == 23))
 
 //@ func cbor.Decoder.decodeRaw
 //@   params d
